@@ -18,12 +18,15 @@ func init() {
 		Technique: "use census of framing-header reads (count inspected vs element 0 only), natural-loop exit analysis of the Transfer-Encoding scan, resolved branch facts on every success return of fixTransferEncoding/fixLength/parseContentLength/readTransfer/ReadRequest/parseRequestLine, validator-gate search (dominating branch on a predicate whose constant-folded verdict rejects SP/CR) before the header-map insertion of ReadMIMEHeaderAndKeys, table agreement of isTokenTable with RFC 7230 tchar, value-origin census of the method consulted by the shared request/response framing code (who-may-write transferReader.RequestMethod, call-site arguments) with response-only guard recognition, two-context forward dataflow of the sticky error field of the body decoders (pending-verdict state, cleared on the nil edge of a fresh test of the field, helper methods summarised per entry state), backing-block family analysis of the slices stored into header maps (phi/reslice closure, capacity bound vs start of the remaining block)",
 		Meta: core.Meta{
 			Level:       "other",
-			Explanation: "Decides: (a) multiplicity: fixTransferEncoding and fixLength must inspect the number of Transfer-Encoding / Content-Length field values (len or a loop over all) instead of element 0 / GetDirect only; (b) Transfer-Encoding grammar: the loop over the comma-separated codings is left early only into an error return, every element either is stored as \"chunked\" or ends in an error, a non-empty result has len <= 1 and is returned only after delete(header, \"Content-Length\"); chunked() is len(te) > 0 && te[0|last] == \"chunked\"; (c) Content-Length: read only when not chunked, parse errors are returned, the accepted value is the parsed one, parseContentLength accepts only err == nil && n >= 0 and must not accept a sign (ParseUint or a digit gate); (d) readTransfer returns nil only when fixTransferEncoding, fixLength and fixTrailer succeeded, stores their results, and the length-delimited body is LimitReader(r, that length) under length > 0; (e) ReadRequest returns a request only when parseRequestLine ok, ParseHTTPVersion ok, ParseRequestURI, ReadMIMEHeaderAndKeys and readTransfer succeeded, every other return is (nil, non-nil error), Method/RequestURI/Header are the parsed ones; parseRequestLine says ok only with two separators found; (f) ReadMIMEHeaderAndKeys inserts only under `colon found`, the key is canonicalMIMEHeaderKey(kv[:colon]), the value starts after the colon, a read error is never dropped, and the insertion must be dominated by a validity gate over the name bytes that rejects SP/HT/CR (field-name gate, whitespace before colon); isTokenTable equals the RFC 7230 tchar set and validHeaderFieldByte follows it; (g) request framing is method-independent: every branch of readTransfer/fixLength/fixTransferEncoding/fixTrailer on a request method (noBodyExpected(m), m == \"HEAD\"/\"GET\") either consults a method that can never be the parsed request's own (all writers of transferReader.RequestMethod and all arguments bound to the method parameter are constants or Response.Request.Method) or is taken only under the message-is-a-response evidence (isResponse / the *Response type-switch arm). (h) a recorded rejection is not lost: for every struct type of bfe_http with a Read method and a field of type error (chunkedReader.err, the sticky verdict of the chunked decoder; bodyEOFSignal.rerr), a forward dataflow over Read and the methods it calls on the same receiver (two contexts: entered with / without a pending verdict) shows that no store assigns a value that may be nil to the field while an error stored since the last `field == nil` test may still be in it - so the CRLF / size-line verdict of one step cannot be overwritten by the next step; (i) field values do not share writable storage: every value list inserted into a map[string][]string in bfe_net/textproto and bfe_http that is cut out of a backing block which keeps being cut for other keys is a three-index slice whose capacity bound is not above the start of the rest of the block (same value or constants), so appending a repeated field line cannot overwrite the value of another field such as Content-Length. Not covered: equality with a reference parser on whole streams, obs-fold handling, Host multiplicity, response framing, bare CR inside lines; for (h) error fields touched by closures or by module functions that receive the reader as an argument are reported as not followed, explicit hand-over of the verdict through other variables is not modelled; for (i) value lists received whole from a caller or another map (aliasing of complete lists between maps) and blocks cut in a form other than block[:a:b] / block[c:] on the same SSA value.",
+			Explanation: "Decides: (a) multiplicity: fixTransferEncoding and fixLength must inspect the number of Transfer-Encoding / Content-Length field values (len or a loop over all) instead of element 0 / GetDirect only; (b) Transfer-Encoding grammar: the loop over the comma-separated codings is left early only into an error return, every element either is stored as \"chunked\" or ends in an error, a non-empty result has len <= 1 and is returned only after delete(header, \"Content-Length\"); chunked() is len(te) > 0 && te[0|last] == \"chunked\"; (c) Content-Length: read only when not chunked, parse errors are returned, the accepted value is the parsed one, parseContentLength accepts only err == nil && n >= 0 and must not accept a sign (ParseUint or a digit gate); (d) readTransfer returns nil only when fixTransferEncoding, fixLength and fixTrailer succeeded, stores their results, and the length-delimited body is LimitReader(r, that length) under length > 0; (e) ReadRequest returns a request only when parseRequestLine ok, ParseHTTPVersion ok, ParseRequestURI, ReadMIMEHeaderAndKeys and readTransfer succeeded, every other return is (nil, non-nil error), Method/RequestURI/Header are the parsed ones; parseRequestLine says ok only with two separators found; (f) ReadMIMEHeaderAndKeys inserts only under `colon found`, the key is canonicalMIMEHeaderKey(kv[:colon]), the value starts after the colon, a read error is never dropped, and the insertion must be dominated by a validity gate over the name bytes that rejects SP/HT/CR (field-name gate, whitespace before colon); isTokenTable equals the RFC 7230 tchar set and validHeaderFieldByte follows it; (g) request framing is method-independent: every branch of readTransfer/fixLength/fixTransferEncoding/fixTrailer on a request method (noBodyExpected(m), m == \"HEAD\"/\"GET\") either consults a method that can never be the parsed request's own (all writers of transferReader.RequestMethod and all arguments bound to the method parameter are constants or Response.Request.Method) or is taken only under the message-is-a-response evidence (isResponse / the *Response type-switch arm). (h) a recorded rejection is not lost: for every struct type of bfe_http with a Read method and a field of type error (chunkedReader.err, the sticky verdict of the chunked decoder; bodyEOFSignal.rerr), a forward dataflow over Read and the methods it calls on the same receiver (two contexts: entered with / without a pending verdict) shows that no store assigns a value that may be nil to the field while an error stored since the last `field == nil` test may still be in it - so the CRLF / size-line verdict of one step cannot be overwritten by the next step; (i) field values do not share writable storage: every value list inserted into a map[string][]string in bfe_net/textproto and bfe_http that is cut out of a backing block which keeps being cut for other keys is a three-index slice whose capacity bound is not above the start of the rest of the block (same value or constants), so appending a repeated field line cannot overwrite the value of another field such as Content-Length. Not covered: equality with a reference parser on whole streams, obs-fold handling, Host multiplicity, response framing, bare CR inside lines; for (h) error fields touched by closures or by module functions that receive the reader as an argument are reported as not followed, explicit hand-over of the verdict through other variables is not modelled; for (i) value lists received whole from a caller or another map (aliasing of complete lists between maps) and blocks cut in a form other than block[:a:b] / block[c:] on the same SSA value. Robustness: framing-header reads, gate calls and field stores are looked for in the anchored function and its private helpers (unexported, one call site; facts of the call site hold inside the helper, facts established by a helper's returns hold after its call, a value returned by every relevant return of a helper is the call's result), `return helper(…)` tails are followed, codings may be recorded by index store or by append of single elements. Not followed: the Transfer-Encoding scan loop moved out of fixTransferEncoding, the splitting of a header line (colon search, key slice, value start) moved out of ReadMIMEHeaderAndKeys into a helper that returns several of these at once (value-after-colon is then not an obligation).",
 			RuleText:    "obligations = each framing-header read, each loop exit / element path of the Transfer-Encoding scan, each success return of the framing functions and of ReadRequest, each error return of ReadRequest, each header-map insertion, the token table, each method-dependent branch of the framing functions, each store to a sticky error field reachable from a Read method, each insertion of a value list into a header map",
 			Assumptions: []string{"strconv.ParseUint rejects a leading sign; net/url.ParseRequestURI returns an error for malformed targets"},
 		},
 		Run: runC24,
 		Mutants: []Mutant{
+			{Name: "silent-cl-read-in-helper", Silent: true, File: "bfe_http/transfer.go", Old: "\tcl := strings.TrimSpace(header.GetDirect(\"Content-Length\"))\n\tif cl != \"\" {\n\t\tn, err := parseContentLength(cl)\n\t\tif err != nil {\n\t\t\treturn -1, err\n\t\t}\n\t\treturn n, nil\n\t} else {\n\t\theader.Del(\"Content-Length\")\n\t}\n\n\tif !isResponse && requestMethod == MethodGet {\n\t\t// RFC 2616 doesn't explicitly permit nor forbid an\n\t\t// entity-body on a GET request so we permit one if\n\t\t// declared, but we default to 0 here (not -1 below)\n\t\t// if there's no mention of a body.\n\t\treturn 0, nil\n\t}\n\n\t// Body-EOF logic based on other methods (like closing, or chunked coding)\n\treturn -1, nil\n}\n", New: "\tcl := declaredContentLength(header)\n\tif cl != \"\" {\n\t\tn, err := parseContentLength(cl)\n\t\tif err != nil {\n\t\t\treturn -1, err\n\t\t}\n\t\treturn n, nil\n\t} else {\n\t\theader.Del(\"Content-Length\")\n\t}\n\n\tif !isResponse && requestMethod == MethodGet {\n\t\t// RFC 2616 doesn't explicitly permit nor forbid an\n\t\t// entity-body on a GET request so we permit one if\n\t\t// declared, but we default to 0 here (not -1 below)\n\t\t// if there's no mention of a body.\n\t\treturn 0, nil\n\t}\n\n\t// Body-EOF logic based on other methods (like closing, or chunked coding)\n\treturn -1, nil\n}\n\n// declaredContentLength returns the (single) Content-Length value, trimmed.\nfunc declaredContentLength(hdr Header) string {\n\treturn strings.TrimSpace(hdr.GetDirect(\"Content-Length\"))\n}\n"},
+			{Name: "silent-te-append-constant", Silent: true, File: "bfe_http/transfer.go", Old: "\t\tte = te[0 : len(te)+1]\n\t\tte[len(te)-1] = encoding\n", New: "\t\tte = append(te, \"chunked\")\n"},
+			{Name: "silent-transfer-framing-in-helper", Silent: true, File: "bfe_http/transfer.go", Old: "\t// Transfer encoding, content length\n\tt.TransferEncoding, err = fixTransferEncoding(t.RequestMethod, t.Header)\n\tif err != nil {\n\t\treturn err\n\t}\n\n\trealLength, err := fixLength(isResponse, t.StatusCode, t.RequestMethod, t.Header, t.TransferEncoding)\n\tif err != nil {\n\t\treturn err\n\t}\n\tif isResponse && t.RequestMethod == MethodHead {\n\t\tif n, err := parseContentLength(t.Header.GetDirect(\"Content-Length\")); err != nil {\n\t\t\treturn err\n\t\t} else {\n\t\t\tt.ContentLength = n\n\t\t}\n\t} else {\n\t\tt.ContentLength = realLength\n\t}\n\n\t// Trailer\n\tt.Trailer, err = fixTrailer(t.Header, t.TransferEncoding)\n\tif err != nil {\n\t\treturn err\n\t}\n\n\t// If there is no Content-Length or chunked Transfer-Encoding on a *Response\n\t// and the status is not 1xx, 204 or 304, then the body is unbounded.\n\t// See RFC2616, section 4.4.\n\tswitch msg.(type) {\n\tcase *Response:\n\t\tif realLength == -1 &&\n\t\t\t!chunked(t.TransferEncoding) &&\n\t\t\tbodyAllowedForStatus(t.StatusCode) {\n\t\t\t// Unbounded body.\n\t\t\tt.Close = true\n\t\t}\n\t}\n\n\t// Prepare body reader.  ContentLength < 0 means chunked encoding\n\t// or close connection when finished, since multipart is not supported yet\n\tswitch {\n\tcase chunked(t.TransferEncoding):\n\t\tif noBodyExpected(t.RequestMethod) {\n\t\t\tt.Body = EofReader\n\t\t} else {\n\t\t\tt.Body = &body{src: newChunkedReader(r), hdr: msg, r: r, closing: t.Close}\n\t\t}\n\tcase realLength == 0:\n\t\tt.Body = EofReader\n\tcase realLength > 0:\n\t\t// weiwei02: set r for peek data from body\n\t\tt.Body = &body{src: io.LimitReader(r, realLength), r: r, closing: t.Close}\n\tdefault:\n\t\t// realLength < 0, i.e. \"Content-Length\" not mentioned in header\n\t\tif t.Close {\n\t\t\t// Close semantics (i.e. HTTP/1.0)\n\t\t\tt.Body = &body{src: r, closing: t.Close}\n\t\t} else {\n\t\t\t// Persistent connection (i.e. HTTP/1.1)\n\t\t\tt.Body = EofReader\n\t\t}\n\t}\n\n\t// Unify output\n\tswitch rr := msg.(type) {\n\tcase *Request:\n\t\trr.Body = t.Body\n\t\trr.ContentLength = t.ContentLength\n\t\trr.TransferEncoding = t.TransferEncoding\n\t\trr.Close = t.Close\n\t\trr.Trailer = t.Trailer\n\tcase *Response:\n\t\trr.Body = t.Body\n\t\trr.ContentLength = t.ContentLength\n\t\trr.TransferEncoding = t.TransferEncoding\n\t\trr.Close = t.Close\n\t\trr.Trailer = t.Trailer\n\t}\n\n\treturn nil\n}\n\n", New: "\t// Transfer encoding, content length\n\trealLength, err := t.fixFraming(isResponse)\n\tif err != nil {\n\t\treturn err\n\t}\n\tif isResponse && t.RequestMethod == MethodHead {\n\t\tif n, err := parseContentLength(t.Header.GetDirect(\"Content-Length\")); err != nil {\n\t\t\treturn err\n\t\t} else {\n\t\t\tt.ContentLength = n\n\t\t}\n\t} else {\n\t\tt.ContentLength = realLength\n\t}\n\n\t// Trailer\n\tt.Trailer, err = fixTrailer(t.Header, t.TransferEncoding)\n\tif err != nil {\n\t\treturn err\n\t}\n\n\t// If there is no Content-Length or chunked Transfer-Encoding on a *Response\n\t// and the status is not 1xx, 204 or 304, then the body is unbounded.\n\t// See RFC2616, section 4.4.\n\tswitch msg.(type) {\n\tcase *Response:\n\t\tif realLength == -1 &&\n\t\t\t!chunked(t.TransferEncoding) &&\n\t\t\tbodyAllowedForStatus(t.StatusCode) {\n\t\t\t// Unbounded body.\n\t\t\tt.Close = true\n\t\t}\n\t}\n\n\t// Prepare body reader.  ContentLength < 0 means chunked encoding\n\t// or close connection when finished, since multipart is not supported yet\n\tswitch {\n\tcase chunked(t.TransferEncoding):\n\t\tif noBodyExpected(t.RequestMethod) {\n\t\t\tt.Body = EofReader\n\t\t} else {\n\t\t\tt.Body = &body{src: newChunkedReader(r), hdr: msg, r: r, closing: t.Close}\n\t\t}\n\tcase realLength == 0:\n\t\tt.Body = EofReader\n\tcase realLength > 0:\n\t\t// weiwei02: set r for peek data from body\n\t\tt.Body = &body{src: io.LimitReader(r, realLength), r: r, closing: t.Close}\n\tdefault:\n\t\t// realLength < 0, i.e. \"Content-Length\" not mentioned in header\n\t\tif t.Close {\n\t\t\t// Close semantics (i.e. HTTP/1.0)\n\t\t\tt.Body = &body{src: r, closing: t.Close}\n\t\t} else {\n\t\t\t// Persistent connection (i.e. HTTP/1.1)\n\t\t\tt.Body = EofReader\n\t\t}\n\t}\n\n\t// Unify output\n\tswitch rr := msg.(type) {\n\tcase *Request:\n\t\trr.Body = t.Body\n\t\trr.ContentLength = t.ContentLength\n\t\trr.TransferEncoding = t.TransferEncoding\n\t\trr.Close = t.Close\n\t\trr.Trailer = t.Trailer\n\tcase *Response:\n\t\trr.Body = t.Body\n\t\trr.ContentLength = t.ContentLength\n\t\trr.TransferEncoding = t.TransferEncoding\n\t\trr.Close = t.Close\n\t\trr.Trailer = t.Trailer\n\t}\n\n\treturn nil\n}\n\n// fixFraming decides the transfer codings and the body length of the message.\nfunc (tr *transferReader) fixFraming(isResp bool) (int64, error) {\n\tcodings, err := fixTransferEncoding(tr.RequestMethod, tr.Header)\n\tif err != nil {\n\t\treturn 0, err\n\t}\n\ttr.TransferEncoding = codings\n\treturn fixLength(isResp, tr.StatusCode, tr.RequestMethod, tr.Header, tr.TransferEncoding)\n}\n\n"},
 			{Name: "te-skip-unknown", File: "bfe_http/transfer.go", Old: "		if encoding != \"chunked\" {\n			return nil, &badStringError{\"unsupported transfer encoding\", encoding}\n		}", New: "		if encoding != \"chunked\" {\n			continue\n		}", Expect: "te-grammar|fixTransferEncoding:element-path"},
 			{Name: "te-many-allowed", File: "bfe_http/transfer.go", Old: "	if len(te) > 1 {\n		return nil, &badStringError{\"too many transfer encodings\", strings.Join(te, \",\")}\n	}\n", New: "", Expect: "te-grammar|fixTransferEncoding:single"},
 			{Name: "te-keeps-content-length", File: "bfe_http/transfer.go", Old: "		delete(header, \"Content-Length\")\n		return te, nil", New: "		return te, nil", Expect: "te-grammar|fixTransferEncoding:deletes-content-length"},
@@ -66,6 +69,16 @@ func c24IsLenOf(v, x ssa.Value) bool {
 	return ok && bi.Name() == "len"
 }
 
+// c24FoundIndex: `idx op k` says that an Index/IndexByte result (>= -1) is a
+// position: idx >= 0, idx > -1, idx != -1.
+func c24FoundIndex(op token.Token, y ssa.Value) bool {
+	k, isK := h1aConstInt(y)
+	if !isK {
+		return false
+	}
+	return (op == token.GEQ && k == 0) || ((op == token.GTR || op == token.NEQ) && k == -1)
+}
+
 func c24IsConst(k int64) func(ssa.Value) bool {
 	return func(v ssa.Value) bool { x, ok := h1aConstInt(v); return ok && x == k }
 }
@@ -96,6 +109,14 @@ func c24CountInspected(v ssa.Value) bool {
 	return false
 }
 
+// c24Anchors marks the functions the rules of C24 analyse under their own name.
+func c24Anchors(c *core.Ctx) {
+	h1rAnchors(c.P, "bfe_http", "fixTransferEncoding", "fixLength", "fixTrailer", "chunked", "parseContentLength", "readTransfer",
+		"ReadRequest", "parseRequestLine", "noBodyExpected", "ParseHTTPVersion", "newChunkedReader", "bodyAllowedForStatus")
+	h1rAnchors(c.P, "bfe_net/textproto", "Reader.ReadMIMEHeaderAndKeys", "Reader.readContinuedLineSlice", "Reader.ReadLine",
+		"validHeaderFieldByte", "canonicalMIMEHeaderKey")
+}
+
 func runC24(c *core.Ctx) {
 	h1aDebugDump(c)
 	const pkg = "bfe_http"
@@ -103,6 +124,8 @@ func runC24(c *core.Ctx) {
 		c.Missing(pkg)
 		return
 	}
+	defer h1rRegister(c.P)()
+	c24Anchors(c)
 	fx := h1aNewFacts()
 	c24Multiplicity(c, fx)
 	c24TransferEncoding(c, fx)
@@ -158,7 +181,9 @@ func c24Multiplicity(c *core.Ctx, fx *h1aFacts) {
 			continue
 		}
 		c.Analysed(core.FuncKey(fn))
-		core.Instrs(fn, func(in ssa.Instruction) {
+		// the anchored function together with its private helpers: the count may
+		// be inspected in a helper that is always executed before the read
+		h1rRegionInstrs(fn, func(in ssa.Instruction) {
 			switch x := in.(type) {
 			case *ssa.Lookup:
 				key, ok := core.ConstString(x.Index)
@@ -185,16 +210,16 @@ func c24Multiplicity(c *core.Ctx, fx *h1aFacts) {
 				if !ok || !c24FramingKeys[key] {
 					return
 				}
-				// a first-value accessor is acceptable only when the same function also inspects the count
+				// a first-value accessor is acceptable only when the count is inspected before it
 				okCount := false
-				core.Instrs(fn, func(in2 ssa.Instruction) {
+				h1rRegionInstrs(fn, func(in2 ssa.Instruction) {
 					if lk, ok := in2.(*ssa.Lookup); ok {
-						if k2, ok := core.ConstString(lk.Index); ok && k2 == key && !lk.CommaOk && c24CountInspected(lk) && core.Dominates(lk, x) {
+						if k2, ok := core.ConstString(lk.Index); ok && k2 == key && !lk.CommaOk && c24CountInspected(lk) && h1rDominates(lk, x, fn) {
 							okCount = true
 						}
 					}
 					if vc, ok := in2.(*ssa.Call); ok && core.CallIs(&vc.Call, pkg+".Header.Values") && len(vc.Call.Args) == 2 {
-						if k2, ok := core.ConstString(vc.Call.Args[1]); ok && k2 == key && c24CountInspected(vc) && core.Dominates(vc, x) {
+						if k2, ok := core.ConstString(vc.Call.Args[1]); ok && k2 == key && c24CountInspected(vc) && h1rDominates(vc, x, fn) {
 							okCount = true
 						}
 					}
@@ -301,8 +326,21 @@ func c24TransferEncoding(c *core.Ctx, fx *h1aFacts) {
 	}
 	c.Check("te-scan", "fixTransferEncoding:scan-complete", split.Pos(), len(badExit) == 0,
 		"the loop over the Transfer-Encoding codings is left early without an error (under "+strings.Join(badExit, " | ")+"): the codings after that element are never examined, so e.g. `identity, chunked` is taken as `no transfer coding` and `identity, bogus` is not rejected")
-	// stores into the result
+	// stores into the result: te[len(te)-1] = coding, or te = append(te, coding)
+	teAppend := func(in ssa.Instruction) (*ssa.Call, []ssa.Value) {
+		call, ok := in.(*ssa.Call)
+		if !ok || !loop[call.Block()] || len(call.Call.Args) != 2 || core.TypeStr(call.Type()) != "[]string" {
+			return nil, nil
+		}
+		if bi, ok := call.Call.Value.(*ssa.Builtin); !ok || bi.Name() != "append" {
+			return nil, nil
+		}
+		return call, h1aVarargs(call.Call.Args[1])
+	}
 	isTeStore := func(in ssa.Instruction) bool {
+		if call, elems := teAppend(in); call != nil {
+			return len(elems) > 0
+		}
 		st, ok := in.(*ssa.Store)
 		if !ok {
 			return false
@@ -310,23 +348,35 @@ func c24TransferEncoding(c *core.Ctx, fx *h1aFacts) {
 		ia, ok := st.Addr.(*ssa.IndexAddr)
 		return ok && core.TypeStr(ia.X.Type()) == "[]string" && loop[st.Block()]
 	}
+	isChunked := func(fs []h1aFact, v ssa.Value) bool {
+		if k, isK := core.ConstString(v); isK && k == "chunked" {
+			return true
+		}
+		return h1aHasCmp(fs, func(x ssa.Value) bool { return x == h1aRes(v) }, h1aOpIs(token.EQL), func(x ssa.Value) bool { s, ok := core.ConstString(x); return ok && s == "chunked" })
+	}
 	nStores := 0
 	core.Instrs(fn, func(in ssa.Instruction) {
+		if call, elems := teAppend(in); call != nil {
+			nStores++
+			ok := len(elems) > 0
+			for _, e := range elems {
+				if !isChunked(fx.At(call.Block()), e) {
+					ok = false
+				}
+			}
+			why := "a coding is appended without `== \"chunked\"` being established: " + strings.Join(h1aFactStrs(fx.At(call.Block())), " && ")
+			if len(elems) == 0 {
+				why = "codings are appended in a form the rule does not follow (append of a whole list)"
+			}
+			c.Check("te-grammar", "fixTransferEncoding:only-chunked", call.Pos(), ok, why)
+			return
+		}
 		if !isTeStore(in) {
 			return
 		}
 		nStores++
 		st := in.(*ssa.Store)
-		ok := h1aHasCmp(fx.At(st.Block()), func(v ssa.Value) bool { return v == h1aResolve(st.Val) }, h1aOpIs(token.EQL), func(v ssa.Value) bool { s, ok := core.ConstString(v); return ok && s == "chunked" })
-		c.Check("te-grammar", "fixTransferEncoding:only-chunked", st.Pos(), ok, "a coding is recorded without `== \"chunked\"` being established: "+strings.Join(h1aFactStrs(fx.At(st.Block())), " && "))
-	})
-	core.Instrs(fn, func(in ssa.Instruction) {
-		if call, ok := in.(*ssa.Call); ok && loop[call.Block()] {
-			if bi, ok := call.Call.Value.(*ssa.Builtin); ok && bi.Name() == "append" {
-				nStores++
-				c.Check("te-grammar", "fixTransferEncoding:only-chunked", call.Pos(), false, "codings are appended in a form the rule does not follow")
-			}
-		}
+		c.Check("te-grammar", "fixTransferEncoding:only-chunked", st.Pos(), isChunked(fx.At(st.Block()), st.Val), "a coding is recorded without `== \"chunked\"` being established: "+strings.Join(h1aFactStrs(fx.At(st.Block())), " && "))
 	})
 	c.Check("te-grammar", "fixTransferEncoding:records", fn.Pos(), nStores >= 1, "no coding is recorded in the loop")
 	// every way from an element back to the loop header records it (no silent skip)
@@ -454,7 +504,7 @@ func c24ContentLength(c *core.Ctx, fx *h1aFacts) {
 	} else {
 		// reads of Content-Length happen only when not chunked
 		n := 0
-		core.Instrs(fn, func(in ssa.Instruction) {
+		h1rRegionInstrs(fn, func(in ssa.Instruction) {
 			call, ok := in.(*ssa.Call)
 			isRead := false
 			if ok && core.CallIs(&call.Call, pkg+".Header.GetDirect", pkg+".Header.Get", pkg+".Header.Values") && len(call.Call.Args) == 2 {
@@ -477,15 +527,19 @@ func c24ContentLength(c *core.Ctx, fx *h1aFacts) {
 				"Content-Length is consulted without chunked(te) == false being established: Transfer-Encoding must override Content-Length; facts: "+strings.Join(h1aFactStrs(f), " && "))
 		})
 		c.Check("cl", "fixLength:reads-content-length", fn.Pos(), n >= 1, "fixLength no longer reads Content-Length")
-		pcs := core.Calls(fn, pkg+".parseContentLength")
+		pcs := h1rRegionCalls(fn, pkg+".parseContentLength")
 		c.Check("cl", "fixLength:parses", fn.Pos(), len(pcs) >= 1, "fixLength no longer calls parseContentLength")
 		for _, ci := range pcs {
 			pc, ok := ci.(*ssa.Call)
 			if !ok {
 				continue
 			}
-			for i, r := range core.Returns(fn) {
-				if !pc.Block().Dominates(r.Block()) {
+			lp := h1rLift(pc, fn, false)
+			if lp == nil {
+				continue
+			}
+			for i, r := range h1rReturns(fn) {
+				if lr := h1rLift(r, fn, false); lr == nil || !lp.Block().Dominates(lr.Block()) {
 					continue
 				}
 				rv := core.RetVals(r)
@@ -509,7 +563,7 @@ func c24ContentLength(c *core.Ctx, fx *h1aFacts) {
 	}
 	c.Analysed(core.FuncKey(pf))
 	var parse *ssa.Call
-	for _, ci := range core.Calls(pf, "strconv.ParseInt", "strconv.ParseUint") {
+	for _, ci := range h1rRegionCalls(pf, "strconv.ParseInt", "strconv.ParseUint") {
 		parse, _ = ci.(*ssa.Call)
 	}
 	if parse == nil {
@@ -520,7 +574,7 @@ func c24ContentLength(c *core.Ctx, fx *h1aFacts) {
 	c.Check("cl", "parseContentLength:decimal", parse.Pos(), base == 10, fmt.Sprintf("Content-Length must be parsed in base 10, base %d", base))
 	unsigned := core.CallIs(&parse.Call, "strconv.ParseUint")
 	n := 0
-	for i, r := range core.Returns(pf) {
+	for i, r := range h1rReturns(pf) {
 		rv := core.RetVals(r)
 		if len(rv) != 2 || !h1aIsNil(rv[1]) {
 			continue
@@ -562,7 +616,7 @@ func c24ReadTransfer(c *core.Ctx, fx *h1aFacts) {
 	c.Analysed(core.FuncKey(fn))
 	steps := map[string]*ssa.Call{}
 	for _, name := range []string{"fixTransferEncoding", "fixLength", "fixTrailer"} {
-		cs := core.Calls(fn, pkg+"."+name)
+		cs := h1rRegionCalls(fn, pkg+"."+name)
 		if len(cs) != 1 {
 			c.Check("transfer", "readTransfer:calls-"+name, fn.Pos(), false, fmt.Sprintf("expected one call of %s, found %d", name, len(cs)))
 			continue
@@ -571,7 +625,7 @@ func c24ReadTransfer(c *core.Ctx, fx *h1aFacts) {
 		steps[name] = call
 	}
 	nSucc := 0
-	for i, r := range core.Returns(fn) {
+	for i, r := range h1rReturns(fn) {
 		e := h1aRetErr(r)
 		if e == nil {
 			continue
@@ -592,26 +646,25 @@ func c24ReadTransfer(c *core.Ctx, fx *h1aFacts) {
 	// results are used
 	if te := steps["fixTransferEncoding"]; te != nil {
 		stored := false
-		core.Instrs(fn, func(in ssa.Instruction) {
+		h1rRegionInstrs(fn, func(in ssa.Instruction) {
 			if st, ok := in.(*ssa.Store); ok && strings.HasSuffix(core.Render(st.Addr), ".TransferEncoding") && h1aIsResultOf(st.Val, te, 0) {
 				stored = true
 			}
 		})
 		okArg := false
 		if fl := steps["fixLength"]; fl != nil && len(fl.Call.Args) == 5 {
-			a := h1aResolve(fl.Call.Args[4])
-			okArg = h1aIsResultOf(a, te, 0)
+			okArg = h1aIsResultOf(fl.Call.Args[4], te, 0)
 		}
 		c.Check("transfer", "readTransfer:te-flows", te.Pos(), stored && okArg, fmt.Sprintf("the codings returned by fixTransferEncoding must be stored in t.TransferEncoding (stored=%v) and be the te argument of fixLength (%v)", stored, okArg))
 	}
 	if fl := steps["fixLength"]; fl != nil {
-		lrs := core.Calls(fn, "io.LimitReader")
+		lrs := h1rRegionCalls(fn, "io.LimitReader")
 		c.Check("transfer", "readTransfer:length-body-present", fn.Pos(), len(lrs) >= 1, "no length-delimited body reader")
 		for i, ci := range lrs {
 			f := fx.At(ci.(ssa.Instruction).Block())
 			pos := h1aHasCmp(f, func(v ssa.Value) bool { return h1aIsResultOf(v, fl, 0) }, h1aOpIs(token.GTR), c24IsConst(0)) ||
 				h1aHasCmp(f, func(v ssa.Value) bool { return h1aIsResultOf(v, fl, 0) }, h1aOpIs(token.GEQ), c24IsConst(1))
-			okv := h1aIsResultOf(ci.Common().Args[1], fl, 0) && core.StripConv(ci.Common().Args[0]) == ssa.Value(fn.Params[1])
+			okv := h1aIsResultOf(ci.Common().Args[1], fl, 0) && h1aResConv(ci.Common().Args[0]) == ssa.Value(fn.Params[1])
 			c.Check("transfer", fmt.Sprintf("readTransfer:length-body#%d", i), ci.Pos(), pos && okv,
 				"the length-delimited body must be io.LimitReader(r, n) with n the length decided by fixLength and n > 0 established; got LimitReader("+core.Render(ci.Common().Args[0])+", "+core.Render(ci.Common().Args[1])+")")
 		}
@@ -644,7 +697,7 @@ func c24ReadRequest(c *core.Ctx, fx *h1aFacts) {
 	}
 	calls := map[string]*ssa.Call{}
 	for _, g := range gates {
-		cs := core.Calls(fn, g.callee)
+		cs := h1rRegionCalls(fn, g.callee)
 		if len(cs) != 1 {
 			c.Check("accept", "ReadRequest:"+g.name, fn.Pos(), false, fmt.Sprintf("expected one call of %s, found %d", g.callee, len(cs)))
 			continue
@@ -652,7 +705,7 @@ func c24ReadRequest(c *core.Ctx, fx *h1aFacts) {
 		calls[g.name], _ = cs[0].(*ssa.Call)
 	}
 	nSucc := 0
-	for i, r := range core.Returns(fn) {
+	for i, r := range h1rReturns(fn) {
 		rv := core.RetVals(r)
 		if len(rv) != 2 {
 			continue
@@ -684,7 +737,7 @@ func c24ReadRequest(c *core.Ctx, fx *h1aFacts) {
 	}
 	c.Check("accept", "ReadRequest:has-success", fn.Pos(), nSucc >= 1, "ReadRequest has no success return")
 	// fields come from the parsed line / header block
-	if prl, rl := calls["parseRequestLine"], core.Calls(fn, "bfe_net/textproto.Reader.ReadLine"); prl != nil {
+	if prl, rl := calls["parseRequestLine"], h1rRegionCalls(fn, "bfe_net/textproto.Reader.ReadLine"); prl != nil {
 		lineOK := false
 		if len(rl) == 1 {
 			if rlc, ok := rl[0].(*ssa.Call); ok {
@@ -694,7 +747,7 @@ func c24ReadRequest(c *core.Ctx, fx *h1aFacts) {
 		c.Check("accept", "ReadRequest:line-source", prl.Pos(), lineOK, "parseRequestLine must be applied to the line returned by tp.ReadLine()")
 		want := map[string]int{"Method": 0, "RequestURI": 1, "Proto": 2}
 		got := map[string]bool{}
-		core.Instrs(fn, func(in ssa.Instruction) {
+		h1rRegionInstrs(fn, func(in ssa.Instruction) {
 			st, ok := in.(*ssa.Store)
 			if !ok {
 				return
@@ -762,10 +815,7 @@ func c24ReadRequest(c *core.Ctx, fx *h1aFacts) {
 			seen := map[ssa.Value]bool{}
 			for _, ff := range f {
 				x, op, y, ok := ff.Cmp()
-				if !ok || op != token.GEQ {
-					continue
-				}
-				if k, isK := h1aConstInt(y); !isK || k != 0 {
+				if !ok || !c24FoundIndex(op, y) {
 					continue
 				}
 				if call, ok := x.(*ssa.Call); ok && core.CallIs(&call.Call, "strings.Index", "strings.IndexByte") && !seen[x] {
@@ -794,7 +844,7 @@ func c24MIME(c *core.Ctx, fx *h1aFacts) {
 		return
 	}
 	c.Analysed(core.FuncKey(fn))
-	lines := core.Calls(fn, pkg+".Reader.readContinuedLineSlice")
+	lines := h1rRegionCalls(fn, pkg+".Reader.readContinuedLineSlice")
 	if len(lines) != 1 {
 		c.Check("mime", "ReadMIMEHeaderAndKeys:shape", fn.Pos(), false, fmt.Sprintf("expected one readContinuedLineSlice call, found %d", len(lines)))
 		return
@@ -823,7 +873,7 @@ func c24MIME(c *core.Ctx, fx *h1aFacts) {
 		var colon *ssa.Call
 		for _, ff := range f {
 			x, op, y, ok := ff.Cmp()
-			if !ok || op != token.GEQ || !c24IsConst(0)(y) {
+			if !ok || !c24FoundIndex(op, y) {
 				continue
 			}
 			if call, ok := x.(*ssa.Call); ok && core.CallIs(&call.Call, "bytes.IndexByte") && isKV(call.Call.Args[0]) && c24IsConst(':')(call.Call.Args[1]) {
@@ -834,7 +884,7 @@ func c24MIME(c *core.Ctx, fx *h1aFacts) {
 		// key = canonical(kv[:colon])
 		keyOK := false
 		var keyArg ssa.Value
-		if kc, ok := mu.Key.(*ssa.Call); ok && colon != nil {
+		if kc, ok := h1aRes(mu.Key).(*ssa.Call); ok && colon != nil {
 			if sc := kc.Call.StaticCallee(); sc != nil && strings.HasPrefix(sc.Name(), "canonicalMIMEHeaderKey") && len(kc.Call.Args) >= 1 {
 				if sl, ok := kc.Call.Args[0].(*ssa.Slice); ok && isKV(sl.X) && sl.Low == nil && sl.High == ssa.Value(colon) {
 					keyOK = true
@@ -842,7 +892,7 @@ func c24MIME(c *core.Ctx, fx *h1aFacts) {
 				}
 			}
 		}
-		if ex, ok := mu.Key.(*ssa.Extract); ok && colon != nil && ex.Index == 0 {
+		if ex, ok := h1aRes(mu.Key).(*ssa.Extract); ok && colon != nil && ex.Index == 0 {
 			if kc, ok := ex.Tuple.(*ssa.Call); ok && len(kc.Call.Args) >= 1 {
 				if sl, ok := kc.Call.Args[0].(*ssa.Slice); ok && isKV(sl.X) && sl.Low == nil && sl.High == ssa.Value(colon) {
 					keyOK = true
@@ -982,6 +1032,8 @@ func c24MIME(c *core.Ctx, fx *h1aFacts) {
 func c24MethodIndependent(c *core.Ctx, fx *h1aFacts) {
 	const pkg = "bfe_http"
 	const rule = "method-independent"
+	defer h1rRegister(c.P)() // also run on behalf of C28
+	c24Anchors(c)
 	c.Min(rule, 3)
 	fld, _ := c.P.Obj(pkg, "transferReader.RequestMethod").(*types.Var)
 	reqMethod, _ := c.P.Obj(pkg, "Request.Method").(*types.Var)
@@ -1165,7 +1217,9 @@ func c24MethodIndependent(c *core.Ctx, fx *h1aFacts) {
 			continue
 		}
 		n := map[string]int{}
-		core.Instrs(fn, func(in ssa.Instruction) {
+		// the anchored function and its private helpers (a method test moved into a helper is still a method test)
+		h1rRegionInstrs(fn, func(in ssa.Instruction) {
+			fn := in.Parent()
 			var mv ssa.Value
 			kind := ""
 			switch x := in.(type) {
